@@ -177,80 +177,93 @@ func runC12(c *fw.Ctx) {
 					if !c.Next() {
 						continue
 					}
-					c.Count("evaluations", 1)
-					nodes := []*doc.Node{doc.Jsight()}
-					for _, i := range order {
-						var bn []string
-						for _, b := range ts[i].bases {
-							bn = append(bn, "@"+ts[b].name)
+					for _, hostEmpty := range []bool{false, true} {
+						// the inheriting schema of the host with one property of its own, and with none at all
+						// (an empty object that only inherits); the latter against the graphs over 2 types
+						if hostEmpty && (host.name == "none" || n > 2) {
+							continue
 						}
-						nodes = append(nodes, doc.N("TYPE", "@"+ts[i].name).WithBody(objBody(bn, ts[i].own, i+1)))
-					}
-					for i := 0; i < n; i++ {
-						if pat[i] == 3 {
-							nodes = append(nodes, doc.N("TYPE", "@k"+names[i]).WithBody("\"key\""))
-						}
-					}
-					// the extra inheriting schema takes the last type as its base
-					hb := objBody([]string{"@" + ts[n-1].name}, []string{"hostown"}, 9)
-					var hostKeys []string
-					if lastProps, ok := refProps(ts, n-1, map[int]bool{}); ok {
-						for _, p := range lastProps {
-							hostKeys = append(hostKeys, p.key)
-						}
-					}
-					hostKeys = append(hostKeys, "hostown")
-					nodes = host.build(nodes, hb, hostKeys)
-					text := doc.Text(nodes)
-					c.Describe(fmt.Sprintf("n=%d bases=%v own=%v order=%v host=%s", n, idx, pat, order, host.name))
-					o := drv.RunMem("root.jst", text, opt)
-					if o.Crashed() {
-						c.Count("skipped_crash", 1)
-						continue
-					}
-					if !o.OK() {
-						c.Count("rejected_not_judged", 1)
-						// the reference's own rejections must be rejections of the library too
-						continue
-					}
-					c.Distinct(text)
-					c.Count("accepted_documents_compared", 1)
-					cat, _, err := jsonx.Parse([]byte(o.JSON))
-					if err != nil {
-						continue
-					}
-					bad := ""
-					for i := 0; i < n && bad == ""; i++ {
-						want, ok := refProps(ts, i, map[int]bool{})
-						if !ok {
-							bad = fmt.Sprintf("type @%s overrides an inherited property or inherits in a cycle, yet the document is accepted", ts[i].name)
-							break
-						}
-						got := childrenOf(cat.Path("userTypes", "@"+ts[i].name, "schema", "content"))
-						if !propsEqual(got, want) {
-							bad = fmt.Sprintf("type @%s has properties %v, reference %v", ts[i].name, got, want)
-						}
-					}
-					if bad == "" && host.name != "none" {
-						last, ok := refProps(ts, n-1, map[int]bool{})
-						var want []inhProp
-						if ok {
-							for _, p := range last {
-								want = append(want, inhProp{p.key, "@" + ts[n-1].name})
+						c.Count("evaluations", 1)
+						nodes := []*doc.Node{doc.Jsight()}
+						for _, i := range order {
+							var bn []string
+							for _, b := range ts[i].bases {
+								bn = append(bn, "@"+ts[b].name)
 							}
-							want = append(want, inhProp{"hostown", ""})
+							nodes = append(nodes, doc.N("TYPE", "@"+ts[i].name).WithBody(objBody(bn, ts[i].own, i+1)))
 						}
-						content := host.locate(cat)
-						if content == nil {
-							bad = "host schema not found in the catalog"
-						} else if got := childrenOf(content); !propsEqual(got, want) {
-							bad = fmt.Sprintf("the %s schema inheriting from @%s has properties %v, reference %v", host.name, ts[n-1].name, got, want)
+						for i := 0; i < n; i++ {
+							if pat[i] == 3 {
+								nodes = append(nodes, doc.N("TYPE", "@k"+names[i]).WithBody("\"key\""))
+							}
 						}
-					}
-					if bad != "" {
-						c.Violate("inheritance", "C12:"+host.name+":"+firstWordsN(bad, 3), fmt.Sprintf("bases=%v own=%v order=%v host=%s: %s", idx, pat, order, host.name, bad), map[string]interface{}{"text": text})
-					} else {
-						c.Sample("graph n="+fmt.Sprint(n), 2, map[string]interface{}{"text": text})
+						// the extra inheriting schema takes the last type as its base
+						hostOwn := []string{"hostown"}
+						if hostEmpty {
+							hostOwn = nil
+						}
+						hb := objBody([]string{"@" + ts[n-1].name}, hostOwn, 9)
+						var hostKeys []string
+						if lastProps, ok := refProps(ts, n-1, map[int]bool{}); ok {
+							for _, p := range lastProps {
+								hostKeys = append(hostKeys, p.key)
+							}
+						}
+						hostKeys = append(hostKeys, hostOwn...)
+						nodes = host.build(nodes, hb, hostKeys)
+						text := doc.Text(nodes)
+						c.Describe(fmt.Sprintf("n=%d bases=%v own=%v order=%v host=%s host-empty=%v", n, idx, pat, order, host.name, hostEmpty))
+						o := drv.RunMem("root.jst", text, opt)
+						if o.Crashed() {
+							c.Count("skipped_crash", 1)
+							continue
+						}
+						if !o.OK() {
+							c.Count("rejected_not_judged", 1)
+							// the reference's own rejections must be rejections of the library too
+							continue
+						}
+						c.Distinct(text)
+						c.Count("accepted_documents_compared", 1)
+						cat, _, err := jsonx.Parse([]byte(o.JSON))
+						if err != nil {
+							continue
+						}
+						bad := ""
+						for i := 0; i < n && bad == ""; i++ {
+							want, ok := refProps(ts, i, map[int]bool{})
+							if !ok {
+								bad = fmt.Sprintf("type @%s overrides an inherited property or inherits in a cycle, yet the document is accepted", ts[i].name)
+								break
+							}
+							got := childrenOf(cat.Path("userTypes", "@"+ts[i].name, "schema", "content"))
+							if !propsEqual(got, want) {
+								bad = fmt.Sprintf("type @%s has properties %v, reference %v", ts[i].name, got, want)
+							}
+						}
+						if bad == "" && host.name != "none" {
+							last, ok := refProps(ts, n-1, map[int]bool{})
+							var want []inhProp
+							if ok {
+								for _, p := range last {
+									want = append(want, inhProp{p.key, "@" + ts[n-1].name})
+								}
+								if !hostEmpty {
+									want = append(want, inhProp{"hostown", ""})
+								}
+							}
+							content := host.locate(cat)
+							if content == nil {
+								bad = "host schema not found in the catalog"
+							} else if got := childrenOf(content); !propsEqual(got, want) {
+								bad = fmt.Sprintf("the %s schema inheriting from @%s has properties %v, reference %v", host.name, ts[n-1].name, got, want)
+							}
+						}
+						if bad != "" {
+							c.Violate("inheritance", "C12:"+host.name+":"+firstWordsN(bad, 3), fmt.Sprintf("bases=%v own=%v order=%v host=%s host-empty=%v: %s", idx, pat, order, host.name, hostEmpty, bad), map[string]interface{}{"text": text})
+						} else {
+							c.Sample("graph n="+fmt.Sprint(n), 2, map[string]interface{}{"text": text})
+						}
 					}
 				}
 				return !c.Expired()
